@@ -5,6 +5,7 @@ package main
 // is the trusted base of every conformance check; it contains no rule of the library.
 
 import (
+	"crypto/sha256"
 	"encoding/hex"
 	"errors"
 	"fmt"
@@ -28,6 +29,16 @@ type V struct {
 	H  string `json:"h"`
 }
 
+// hx identifies concrete content for equality comparisons: the hex itself when short,
+// otherwise a digest of it.
+func hx(b []byte) string {
+	if len(b) <= 10 {
+		return hex.EncodeToString(b)
+	}
+	d := sha256.Sum256(b)
+	return "#" + hex.EncodeToString(d[:7])
+}
+
 func absent() V { return V{K: "abs", S: []any{}} }
 
 func b0Class(b []byte) int {
@@ -41,7 +52,7 @@ func b0Class(b []byte) int {
 }
 
 func absBytes(b []byte) V {
-	return V{K: "bytes", N: len(b), B0: b0Class(b), S: []any{}, H: hex.EncodeToString(b)}
+	return V{K: "bytes", N: len(b), B0: b0Class(b), S: []any{}, H: hx(b)}
 }
 
 func absBytesP(p *[]byte) V {
@@ -71,7 +82,7 @@ func shapeOf(s string) []any {
 
 func absText(s string) V {
 	sh := shapeOf(s)
-	return V{K: "text", N: len(sh), S: sh, H: hex.EncodeToString([]byte(s))}
+	return V{K: "text", N: len(sh), S: sh, H: hx([]byte(s))}
 }
 
 func strClass(s string) int {
@@ -89,7 +100,7 @@ func strClass(s string) int {
 }
 
 func absStr(s string) V {
-	return V{K: "str", N: len(s), B0: strClass(s), S: []any{}, H: hex.EncodeToString([]byte(s))}
+	return V{K: "str", N: len(s), B0: strClass(s), S: []any{}, H: hx([]byte(s))}
 }
 
 func absStrP(p *string) V {
